@@ -192,7 +192,7 @@ EXPORT errno_t _wcsncpy_s_chk(wchar_t *restrict dest, rsize_t dmax,
         overlap_bumper = dest;
 
         while (dmax > 0) {
-            if (unlikely(src == overlap_bumper)) {
+            if (unlikely(src == overlap_bumper && slen > 0)) {
                 handle_werror(orig_dest, orig_dmax,
                               "wcsncpy_s: "
                               "overlapping objects",
